@@ -104,6 +104,16 @@ Definition tstep {A} (c : tcfg) (s : tbst A) (te : cev A) : tbst A :=
       end
   | Ev (Reject it) =>
       mk_tbst (mk_bst (queue b) (cur b) (tm b) (pend b) (committed b) (tlog b) (pc b) (blocked b) (accepted b) (refused b ++ [it])) i
+  | Ev (StopCommit ok) =>
+      if blocked b then s else
+      match pc b, queue b with
+      | PIdle, [] =>
+          if fixed_S35 (tc c) && (0 <? cur b) && ok
+          then mk_tbst (mk_bst [] 0 (tm b) [] (committed b ++ [pend b]) (tlog b) PIdle false (accepted b) (refused b))
+                       (mk_ti (now i) (twhen i) [] None (fired_at i))
+          else s
+      | _, _ => s
+      end
   end.
 
 Definition trun_from {A} (c : tcfg) (s : tbst A) (tes : list (cev A)) : tbst A := fold_left (tstep c) tes s.
